@@ -241,6 +241,7 @@ type symExec struct {
 	assignCounts    map[types.Object]int
 	singletons      map[types.Object]bool
 	flagNames       map[types.Object]string
+	stackAlias      map[types.Object]bool // single-assignment locals holding the evaluation stack slice
 	pinned          map[types.Object]bool // canonical names that value changes do not undo (loop counters)
 	inlineAll       bool
 	primitive       map[*types.Func]bool // never inlined: recorded as events
@@ -316,6 +317,13 @@ func newSymExec(c *Ctx, rel string) *symExec {
 
 func (se *symExec) isStack(e ast.Expr) bool {
 	if se.stackFld == nil {
+		return false
+	}
+	// a local that was assigned the stack slice itself (`stack := vm.frame.Stack`) stands for it
+	if id, ok := unparen(e).(*ast.Ident); ok {
+		if o := se.info.Uses[id]; o != nil && se.stackAlias[o] {
+			return true
+		}
 		return false
 	}
 	sel, ok := unparen(e).(*ast.SelectorExpr)
@@ -1127,6 +1135,12 @@ func (se *symExec) assignTo(lhs ast.Expr, v val, st *sstate, pos token.Pos, src 
 				}
 			}
 			st.vars[obj] = v
+			if v.kind == vStack && se.assignCount(obj) == 1 {
+				if se.stackAlias == nil {
+					se.stackAlias = map[types.Object]bool{}
+				}
+				se.stackAlias[obj] = true
+			}
 			se.nameByDesc(obj, v)
 		}
 		return
@@ -2147,6 +2161,10 @@ func (se *symExec) loopTrips(x *ast.ForStmt, st *sstate) *lin {
 		// (4) for j := n; j > 0; j--   trips = n
 		if post.Tok == token.DEC && cond.Op == token.GTR {
 			return a.sub(bound)
+		}
+		// (5) for i := n-1; i >= 0; i--   trips = n
+		if post.Tok == token.DEC && cond.Op == token.GEQ {
+			return a.sub(bound).add(linConst(1))
 		}
 	}
 	// (3) for x > 0 { x-- … }        trips = x
